@@ -8,7 +8,10 @@ THEOREMS = ["rewrite_depends_on_free_names", "bound_names_untouched", "frozen", 
 RULE = (
     "generated modules (harness/capture.py) whose lambdas mention closure cells, module globals, nested class "
     "constants, module attributes, enum members, data classes and one-line helpers, with binder names (lambda "
-    "parameters at every nesting level, comprehension targets) drawn so as to collide with the captured names; "
+    "parameters at every nesting level, comprehension targets) drawn so as to collide with the captured names; class constants inherited from a base class "
+    "(Tight.threshold, Tighter.Inner.deep); parameters of an enclosing lambda used as bare names inside nested lambdas "
+    "(call argument, tuple / list element) where the module has a global of the same name; comprehensions whose loop "
+    "variable is spelled like a captured name that its iterable mentions; "
     "after the operator call a generated history rebinds / deletes the captured names; non-trivial = body mentions "
     "a captured name or helper; distinct = distinct lambda body"
 )
